@@ -170,6 +170,18 @@ func (v *Vue) evaluateNodeAsElement(ctx VueContext, node *html.Node, depth int) 
 		return result, nil
 	}
 
+	// A conditional include - <template v-if="..." include="...">, or a component
+	// shorthand tag carrying v-if, which is rewritten into one: the chosen branch
+	// is included exactly like an include tag outside a chain.
+	if node.Data == "template" && helpers.HasAttr(node, "include") {
+		tplNode := helpers.ShallowCloneWithAttrs(node)
+		tplNode.FirstChild, tplNode.LastChild = node.FirstChild, node.LastChild
+		for _, directive := range []string{"v-if", "v-else-if", "v-else"} {
+			helpers.RemoveAttr(tplNode, directive)
+		}
+		return v.evalTemplate(ctx, []*html.Node{tplNode}, ctx.stack.EnvMap(), depth+1)
+	}
+
 	// Special handling for template tags: evaluate bound attributes and set them in current scope
 	if node.Data == "template" {
 		// For templates, bound attributes modify the current scope (don't create new scope)
